@@ -43,6 +43,13 @@ type Backend struct {
 	builder *ModuleBuilder
 	options Options
 
+	// effectiveVersion is the SPIR-V version of the module being compiled: the
+	// configured options.Version, raised when the module needs a newer version
+	// (requireSpirvVersion14). It is per-compilation state: Reset restores it to
+	// the configured version so a reused Backend does not carry a raised version
+	// into later compilations. options itself is never modified.
+	effectiveVersion Version
+
 	// Type cache (IR TypeHandle → SPIR-V ID)
 	typeIDs map[ir.TypeHandle]uint32
 
@@ -168,6 +175,7 @@ type wrappedBinaryOp struct {
 func NewBackend(options Options) *Backend {
 	return &Backend{
 		options:             options,
+		effectiveVersion:    options.Version,
 		typeIDs:             make(map[ir.TypeHandle]uint32, 16),
 		constantIDs:         make(map[ir.ConstantHandle]uint32, 16),
 		globalIDs:           make(map[ir.GlobalVariableHandle]uint32, 4),
@@ -206,6 +214,7 @@ func NewBackend(options Options) *Backend {
 // do not need to call it explicitly.
 func (b *Backend) Reset() {
 	b.module = nil
+	b.effectiveVersion = b.options.Version
 
 	// Clear maps — Go 1.21+ clear() keeps capacity, removes all entries
 	clear(b.typeIDs)
@@ -304,9 +313,9 @@ func (b *Backend) Compile(module *ir.Module) ([]byte, error) {
 
 	// Reuse or create the ModuleBuilder.
 	if b.builder != nil {
-		b.builder.Reset(b.options.Version)
+		b.builder.Reset(b.effectiveVersion)
 	} else {
-		b.builder = NewModuleBuilder(b.options.Version)
+		b.builder = NewModuleBuilder(b.effectiveVersion)
 	}
 
 	// Initialize shared instruction builder with module builder's arena for zero-alloc builds.
@@ -400,7 +409,7 @@ func (b *Backend) emitCapabilities() {
 // addCapability adds a capability if not already added.
 // langVersion returns the SPIR-V version as a packed uint32 (major<<16 | minor<<8).
 func (b *Backend) langVersion() uint32 {
-	return (uint32(b.options.Version.Major) << 16) | (uint32(b.options.Version.Minor) << 8)
+	return (uint32(b.effectiveVersion.Major) << 16) | (uint32(b.effectiveVersion.Minor) << 8)
 }
 
 func (b *Backend) addCapability(capability Capability) {
@@ -2175,7 +2184,7 @@ func (b *Backend) emitEntryPoints() error {
 		// For SPIR-V 1.4+, add ALL used global variables to the interface.
 		// Per the SPIR-V spec, version 1.4 requires all global variables
 		// (not just Input/Output) to be listed in OpEntryPoint.
-		spvVersionWord := (uint32(b.options.Version.Major) << 16) | (uint32(b.options.Version.Minor) << 8)
+		spvVersionWord := (uint32(b.effectiveVersion.Major) << 16) | (uint32(b.effectiveVersion.Minor) << 8)
 		if spvVersionWord >= 0x10400 {
 			usedGlobals := b.collectUsedGlobalVars(&entryPoint.Function)
 			for _, gvHandle := range usedGlobals {
@@ -4279,10 +4288,11 @@ func (b *Backend) typeNeedsLayoutDecoration(handle ir.TypeHandle) bool {
 // Called when OpCopyLogical or other 1.4+ features are needed.
 func (b *Backend) requireSpirvVersion14() {
 	b.builder.RequireVersion(Version1_4)
-	// Also update options so emitEntryPoints sees the bumped version
-	// for SPIR-V 1.4+ interface variable requirements.
-	if b.options.Version.Major < 1 || (b.options.Version.Major == 1 && b.options.Version.Minor < 4) {
-		b.options.Version = Version1_4
+	// Also raise the effective version so emitEntryPoints sees the bumped
+	// version for SPIR-V 1.4+ interface variable requirements. The configured
+	// options are left untouched (Reset restores effectiveVersion from them).
+	if b.effectiveVersion.Major < 1 || (b.effectiveVersion.Major == 1 && b.effectiveVersion.Minor < 4) {
+		b.effectiveVersion = Version1_4
 	}
 }
 
